@@ -21,3 +21,12 @@ claim("C12", "other", "channel/select shape analysis of pump goroutines and hand
       "Decides the structure that exactly-once delivery depends on, for every interleaving: one reader goroutine per socket creation; every blocking channel operation of a reader goroutine is a select arm next to a receive on a channel the last release closes (and the cancel arm closes a pending connection); "
       "a reader answers a taken read request without another blocking socket call; on count==0 the socket is closed, the reader signalled and the manager callback run at most once; every handle method that blocks on the shared channel also waits on its close channel and excludes the closed state first.",
       "Not decided: which handle receives which datagram under a schedule, OS-level re-bindability, select fairness.", "DESIGN.md §4 C12")
+
+claim("C19", "other", "lock-set (guarded-by) analysis with immutability, confinement and write-once classification; single-critical-section rule",
+      "Decides a lock discipline that implies race freedom for the shared components, for every access on every call path: each field is immutable after construction, guarded by one lock class on all accesses (exclusively for writes, including in-place map/list mutation), "
+      "confined to the one goroutine kind that creates the object, a sync primitive, or write-once before the go statement that publishes it; and every function takes a guarding lock at most once (no check-then-act across an unlock).",
+      "Entry lock sets are intersected over in-repo call sites (external callers force the empty set). Not decided: linearizability of results; races inside Prometheus/SDK; per-connection objects that are not shared.", "DESIGN.md §4 C19")
+claim("C17", "other", "lock-set analysis at clock reads with forward value flow; who-may-call; CFG must-pass and value-identity checks",
+      "Decides the structural conditions of exact tunnel-time accounting on all paths: every clock read that flows into a start time or a duration is made under the collector mutex; tunnels are started/stopped only from the authentication/close reports and the UDP entry constructor/removal, "
+      "with keys derived by one function from the same two fields and the TCP stop cut by accessKey != \"\"; the report adds one and the same duration to both counters and then stores the same clock value as the new start; last-close reports before deleting, both only on connCount <= 0; counts change exactly once per call.",
+      "Not decided: the arithmetic identity over histories and scrapes; per-connection balance of start/stop calls (C15/C16 call discipline).", "DESIGN.md §4 C17")
